@@ -43,6 +43,11 @@ def run_property(pid, tier, root=None, overlay=None, write=True, quiet=False, se
 
 
 def main(argv=None):
+    try:
+        import signal
+        signal.signal(signal.SIGPIPE, signal.SIG_DFL)
+    except Exception:
+        pass
     ap = argparse.ArgumentParser(prog='kverif')
     sub = ap.add_subparsers(dest='cmd', required=True)
     c = sub.add_parser('check')
